@@ -72,6 +72,10 @@ func materialise(root string, c impCase, variant int, rootFile ...string) (extra
 			for _, n := range []string{"a", "b", "x"} {
 				tn := fmt.Sprintf("t%d%s", i, n)
 				body := fmt.Sprintf("tasks:\n  %s:\n    command: [\"echo %s\"]\n", tn, tn)
+				if n == "a" {
+					// (its command uses a variable that only v.yaml, a file of the same directory, defines)
+					body = fmt.Sprintf("tasks:\n  %s:\n    command: [\"echo %s {{.dv%d}}\"]\n", tn, tn, i)
+				}
 				target := filepath.Join(dd, n+".yaml")
 				switch {
 				case n == "x" && variant != 3:
@@ -95,6 +99,8 @@ func materialise(root string, c impCase, variant int, rootFile ...string) (extra
 					extraTasks = append(extraTasks, tn)
 				}
 			}
+			// a file of the directory that defines nothing but a variable: it is part of the closure like any
+			_ = ioutil.WriteFile(filepath.Join(dd, "v.yaml"), []byte(fmt.Sprintf("variables:\n  dv%d: dirvalue%d\n", i, i)), 0o644)
 			_ = ioutil.WriteFile(filepath.Join(dd, "ignored.txt"), []byte("not yaml"), 0o644)
 			entries = append(entries, fmt.Sprintf("dir%d", i))
 		}
@@ -223,6 +229,15 @@ func CheckC17(env *core.Env, rep *core.Report) *core.Result {
 		sort.Strings(want)
 		if strings.Join(got, ",") != strings.Join(want, ",") {
 			add("result-is-not-the-closure", fmt.Sprintf("loaded tasks %v, the import closure defines %v", got, want))
+		}
+		// the variables-only file of an imported directory is loaded too: the task next to it renders
+		for _, tn := range extra {
+			if strings.HasSuffix(tn, "a") {
+				rr := e.run(root, "", 10*time.Second, append(append([]string{}, cfgArgs...), "--raw", tn)...)
+				if rr.Exit != 0 || !strings.Contains(rr.Stdout, "dirvalue") {
+					add("definitions-of-a-directory-file-missing", fmt.Sprintf("task %s (imported with its directory) uses a variable defined by v.yaml of the same directory: exit %d, output %q, %s", tn, rr.Exit, clipS(rr.Stdout, 100), lastLine(rr.Stderr)))
+				}
+			}
 		}
 		// each file taken once: the shared pipeline has one stage per file of the closure
 		g := e.run(root, "", 10*time.Second, append(append([]string{}, cfgArgs...), "graph", "p")...)
